@@ -52,6 +52,10 @@ fn main() -> Result<(), Box<dyn Error>> {
     } else {
         dom.pretty(&mut buf)?;
     }
+
+    // a write error must not be lost when the buffer is dropped.
+    buf.flush()?;
+
     Ok(())
 }
 
